@@ -111,6 +111,7 @@ func nodeWFViolations(f *Router) []string {
 	var out []string
 	cnt := func(key string, i int) int { return strings.Count(key[:i], "{") }
 	seen := map[*node]bool{}
+	roots := map[*node]bool{}
 	var visit func(n *node, isRoot bool)
 	visit = func(n *node, isRoot bool) {
 		if n == nil || seen[n] {
@@ -162,9 +163,18 @@ func nodeWFViolations(f *Router) []string {
 			if c == nil {
 				bad("nil child")
 			}
+			if roots[c] {
+				bad("a per-method root node is the child of another node")
+			}
 			visit(c, false)
 		}
+		if n.inode != nil && roots[n.inode] {
+			bad("a per-method root node is the inode of another node")
+		}
 		visit(n.inode, false)
+	}
+	for _, r := range f.getRoot().root {
+		roots[r] = true
 	}
 	for _, r := range f.getRoot().root {
 		visit(r, true)
